@@ -27,6 +27,8 @@ type Thread struct {
 	what   string
 	killed bool
 	vc     vclock
+	wvc    vclock        // happens-before without mutex edges (fork, channel, Once, WaitGroup)
+	held   map[Ptr]int   // locks held: 1 = read mode, 2 = write mode
 	ops    int
 	lastLog int
 }
@@ -115,10 +117,15 @@ func (in *Interp) spawn(fv Value, args []Value, fr *frame, call *ssa.CallCommon)
 	if in.cur != nil {
 		t.vc = in.cur.vc.copy()
 		in.cur.vc[in.cur.id]++
+		t.wvc = in.cur.wvc.copy()
+		in.cur.wvc[in.cur.id]++
 	} else {
 		t.vc = vclock{}
+		t.wvc = vclock{}
 	}
 	t.vc[t.id] = 1
+	t.wvc[t.id] = 1
+	t.held = map[Ptr]int{}
 	in.threads = append(in.threads, t)
 	go in.threadBody(t, func() { in.callValue(fv, args, nil, call) })
 }
@@ -368,6 +375,37 @@ func (in *Interp) release(v vclock) {
 	}
 }
 
+// weak edges: every synchronisation except mutexes (used by the lockset detector)
+func (in *Interp) acquireW(o any) {
+	if in.cur != nil && in.race != nil {
+		if v := in.race.weak[o]; v != nil {
+			in.cur.wvc.join(v)
+		}
+	}
+}
+
+func (in *Interp) releaseW(o any) {
+	if in.cur != nil && in.race != nil {
+		v := in.race.weak[o]
+		if v == nil {
+			v = vclock{}
+			in.race.weak[o] = v
+		}
+		v.join(in.cur.wvc)
+		in.cur.wvc[in.cur.id]++
+	}
+}
+
+func (in *Interp) hold(p Ptr, mode int) {
+	if in.cur != nil && in.cur.held != nil {
+		if mode == 0 {
+			delete(in.cur.held, p)
+		} else {
+			in.cur.held[p] = mode
+		}
+	}
+}
+
 func (in *Interp) mutexLock(p Ptr) {
 	m := in.mutex(p)
 	in.visible("lock")
@@ -375,6 +413,7 @@ func (in *Interp) mutexLock(p Ptr) {
 	m.locked = true
 	in.acquire(m.vc)
 	in.acquire(m.rvc)
+	in.hold(p, 2)
 }
 
 func (in *Interp) mutexTryLock(p Ptr) bool {
@@ -385,6 +424,7 @@ func (in *Interp) mutexTryLock(p Ptr) bool {
 	}
 	m.locked = true
 	in.acquire(m.vc)
+	in.hold(p, 2)
 	return true
 }
 
@@ -395,6 +435,7 @@ func (in *Interp) mutexUnlock(p Ptr) {
 	}
 	in.release(m.vc)
 	m.locked = false
+	in.hold(p, 0)
 }
 
 func (in *Interp) mutexRLock(p Ptr) {
@@ -403,6 +444,7 @@ func (in *Interp) mutexRLock(p Ptr) {
 	in.blockUntil(func() bool { return !m.locked }, "RWMutex.RLock")
 	m.readers++
 	in.acquire(m.vc)
+	in.hold(p, 1)
 }
 
 func (in *Interp) mutexRUnlock(p Ptr) {
@@ -412,6 +454,7 @@ func (in *Interp) mutexRUnlock(p Ptr) {
 	}
 	in.release(m.rvc)
 	m.readers--
+	in.hold(p, 0)
 }
 
 func (in *Interp) onceDo(p Ptr, f Value, fr *frame, call *ssa.CallCommon) {
@@ -423,11 +466,13 @@ func (in *Interp) onceDo(p Ptr, f Value, fr *frame, call *ssa.CallCommon) {
 	in.visible("once")
 	if o.done {
 		in.acquire(o.vc)
+		in.acquireW(o)
 		return
 	}
 	if o.running {
 		in.blockUntil(func() bool { return o.done }, "Once.Do")
 		in.acquire(o.vc)
+		in.acquireW(o)
 		return
 	}
 	o.running = true
@@ -435,6 +480,7 @@ func (in *Interp) onceDo(p Ptr, f Value, fr *frame, call *ssa.CallCommon) {
 		o.done = true
 		o.running = false
 		in.release(o.vc)
+		in.releaseW(o)
 	}()
 	in.callValue(f, nil, fr, call)
 }
@@ -468,6 +514,7 @@ func (in *Interp) chanSend(c *ChanObj, v Value) {
 	}
 	c.buf = append(c.buf, v)
 	in.release(c.vc)
+	in.releaseW(c)
 }
 
 func (in *Interp) chanRecv(c *ChanObj, et types.Type) (Value, bool) {
@@ -479,6 +526,7 @@ func (in *Interp) chanRecv(c *ChanObj, et types.Type) (Value, bool) {
 	in.blockUntil(func() bool { return len(c.buf) > 0 || c.closed }, "chan receive")
 	c.recvW--
 	in.acquire(c.vc)
+	in.acquireW(c)
 	if len(c.buf) > 0 {
 		v := c.buf[0]
 		c.buf = c.buf[1:]
@@ -497,6 +545,7 @@ func (in *Interp) chanClose(c *ChanObj) {
 	}
 	c.closed = true
 	in.release(c.vc)
+	in.releaseW(c)
 }
 
 func (in *Interp) selectOp(fr *frame, x *ssa.Select) Value {
@@ -562,8 +611,10 @@ func (in *Interp) selectOp(fr *frame, x *ssa.Select) Value {
 		}
 		s.ch.buf = append(s.ch.buf, s.val)
 		in.release(s.ch.vc)
+		in.releaseW(s.ch)
 	} else {
 		in.acquire(s.ch.vc)
+		in.acquireW(s.ch)
 		if len(s.ch.buf) > 0 {
 			rv = s.ch.buf[0]
 			s.ch.buf = s.ch.buf[1:]
